@@ -1,4 +1,4 @@
 SPECIFICATION Spec
-CONSTANTS N = 2  E = 1  A = 2  I = 2  Q = 1  NL = {0, 1}  EL = {0}  PN = 2
+CONSTANTS N = 2  E = 1  A = 2  I = 2  Q = 1  NL = {0, 1}  EL = {0}  PN = 1
 INVARIANTS Commutes
 CHECK_DEADLOCK FALSE
